@@ -244,7 +244,7 @@ class ClientModel:
         return 1 + 2 * len(self.slots)
 
     def key(self) -> tuple:
-        return (tuple((s["kind"], s["open"], s["reset"], s["released"], s["ended"]) for s in self.slots),
+        return (tuple((s["kind"], s["open"], s["reset"], s["released"], s["ended"], s["odd"]) for s in self.slots),
                 self.goaway, self.small_window, tuple(sorted(self.tags)), self.npre)
 
     def enabled(self, kinds: Tuple[str, ...]) -> List[tuple]:
@@ -275,7 +275,7 @@ class ClientModel:
             headers, end, extra = HKINDS[op[1]]
             sid = self.next_sid
             self.slots.append({"sid": sid, "kind": op[1], "open": not end, "reset": False, "released": False,
-                               "ended": end})
+                               "ended": end, "odd": op[1] in ODD_KINDS})
             if op[1] in ODD_KINDS:
                 self.tags.add(ODD_KINDS[op[1]])
             return f_headers(sid, headers, end, **extra)
@@ -283,6 +283,7 @@ class ClientModel:
             s = self.slots[op[1]]
             if s["kind"] == "post_now":
                 self.tags.add("data-after-response")
+                s["odd"] = True
             if op[2]:
                 s["open"] = False
                 s["ended"] = True
@@ -291,6 +292,7 @@ class ClientModel:
             s = self.slots[op[1]]
             if s["kind"] == "post_now":
                 self.tags.add("data-after-response")
+                s["odd"] = True
             s["open"] = False
             s["ended"] = True
             return f_headers(s["sid"], [(b"x-trailer", b"1")], True)
